@@ -310,6 +310,7 @@ impl Prop for C15 {
             await_breaks: vec![],
             stop_cmds: vec![],
             trace_via_command: false,
+            reply_breaks: vec![],
         };
         Case {
             prog,
